@@ -306,11 +306,22 @@ func (fx *FnCtx) rangeNext(st *State, pc *Term, t *ssa.Next) Value {
 	// key
 	if tup.At(1).Type() != nil && !isInvalidType(tup.At(1).Type()) {
 		if isStringType(mh.mt.Key()) {
-			fx.fail("range over a map with string keys: the key value is not modelled")
-		}
-		out.L = append(out.L, k)
-		for _, f := range tc.leafFacts(tc.Layout(mh.mt.Key()).Leaves[0], k) {
-			fx.assume(f)
+			// the key handed to the loop body is some string whose content identity is k
+			sv, facts := tc.FreshValue(mh.mt.Key(), "rkstr")
+			for _, f := range facts {
+				fx.assume(f)
+			}
+			fx.assume(Implies(And(pc, okT), Eq(fx.strKey(sv), k)))
+			fx.assume(tc.IdxLt(sv.L[0], st.NAlloc))
+			fx.assume(Eq(sv.L[1], tc.IdxNum(0)))
+			out.L = append(out.L, sv.L...)
+		} else if smallByteArray(mh.mt.Key()) {
+			fx.fail("range over a map with array keys: the key value is not modelled")
+		} else {
+			out.L = append(out.L, k)
+			for _, f := range tc.leafFacts(tc.Layout(mh.mt.Key()).Leaves[0], k) {
+				fx.assume(f)
+			}
 		}
 	}
 	if tup.Len() > 2 && !isInvalidType(tup.At(2).Type()) {
